@@ -76,6 +76,13 @@ type Variant struct {
 	FragSeed uint64 `json:"frag_seed,omitempty"`
 	// MapSeed 0 = sorted order at the map-order seams.
 	MapSeed uint64 `json:"map_seed,omitempty"`
+	// GateReads: every Read of a simulated stream parks like a ContainerLogs call,
+	// and the scheduler picks among all parked operations (opens and reads) with a
+	// PRNG seeded by SchedSeed. With the shipped code (one reading goroutine) this
+	// changes nothing; with code that reads in several goroutines it puts their
+	// interleaving under the simulator's control.
+	GateReads bool   `json:"gate_reads,omitempty"`
+	SchedSeed uint64 `json:"sched_seed,omitempty"`
 }
 
 // Violation describes what a check found.
